@@ -61,13 +61,17 @@ fn msg(e: &Box<dyn std::any::Any + Send>) -> String {{ e.downcast_ref::<String>(
 fn main() {{
     std::panic::set_hook(Box::new(|_| {{}}));
     let script = [{", ".join(str(x) + "u64" for x in SCRIPT)}];
+    // the SAME fake! expression is evaluated in two consecutive lifetimes driven by the same script: the second must behave as the first
+    // (the budget is whole again, whatever the first lifetime's count was); its lines are prefixed with R2
+    for round in 0..2 {{
+    let pfx = if round == 0 {{ "" }} else {{ "R2" }};
     let mut inj = InjectorPP::new();
     inj.when_called(injectorpp::func!(target, {ty})).will_execute(injectorpp::fake!(
         func_type: {quals}fn(a: u64, b: u64) -> {R}{optstr}
     ));
     for (i, a) in script.iter().enumerate() {{
         let (a0, e0) = (ASSIGNS.load(SeqCst), EVALS.load(SeqCst));
-        print!("CALL {{i}} "); std::io::stdout().flush().unwrap();
+        print!("{{pfx}}CALL {{i}} "); std::io::stdout().flush().unwrap();
         let r = catch_unwind(|| call(*a));
         let (da, de) = (ASSIGNS.load(SeqCst) - a0, EVALS.load(SeqCst) - e0);
         match r {{
@@ -76,7 +80,8 @@ fn main() {{
         }}
     }}
     let r = catch_unwind(AssertUnwindSafe(move || drop(inj)));
-    println!("EXIT {{}}", match r {{ Ok(()) => "normal".to_string(), Err(e) => class(&msg(&e)).to_string() }});
+    println!("{{pfx}}EXIT {{}}", match r {{ Ok(()) => "normal".to_string(), Err(e) => class(&msg(&e)).to_string() }});
+    }}
     let after = catch_unwind(|| call(7));
     println!("AFTER {{}}", if after.is_ok() {{ "original" }} else {{ "panics" }});{phase2}
 }}
